@@ -49,7 +49,7 @@ type Case struct {
 	Feat   string `json:"feat"`
 	Hex    string `json:"hex"`
 	// MustAccept: valid by construction
-	MustAccept bool   `json:"must_accept,omitempty"`
+	MustAccept bool `json:"must_accept,omitempty"`
 	// MustReject: invalid by construction (violates exactly one validation rule of the specification)
 	MustReject bool   `json:"must_reject,omitempty"`
 	Mode       string `json:"mode,omitempty"`
